@@ -38,3 +38,6 @@ _case("x_zip_enum", xs=_L, ys=_L)
 _case("x_try", a=Int(-6, 6), items=_L)
 _case("x_chain_cmp", a=_I, b=_I, c=_I)
 _case("x_seq_eq", xs=ListOf(Int(0, 2), max_len=3), ys=ListOf(Int(0, 2), max_len=3), k=Int(0, 3))
+_case("x_max_short_slice", items=ListOf(Int(0, 6), max_len=7), i=Int(-1, 3))
+_ROWS = ListOf(ListOf(Int(0, 3), max_len=3), max_len=3)
+_case("x_generator", rows=_ROWS, extra=_ROWS, k=Int(0, 3), w=Int(0, 4)).generator_as_list = True
